@@ -243,7 +243,7 @@ exit:
 
 	// interpret line directives
 	// (//line directives must start at the beginning of the current line)
-	if next >= 0 /* implies valid comment */ && (lit[1] == '*' || offs == s.lineOffset) && bytes.HasPrefix(lit[2:], prefix) {
+	if next >= 0 /* implies valid comment */ && len(lit) >= 2 && (lit[1] == '*' || offs == s.lineOffset) && bytes.HasPrefix(lit[2:], prefix) {
 		s.updateLineInfo(next, offs, lit)
 	}
 
